@@ -372,7 +372,18 @@ class Interp:
                 er = self.term(e, env)
                 binds.append([v, er])
                 env2[v] = (self.sort_of(e, env), er, env)
-            return ['let', binds, self.term(t[2], env2)]
+            body = self.term(t[2], env2)
+            # CBMC 6.11's SMT back end prints an arithmetic-with-overflow result {result, overflowed} as
+            # (concat result flag) but reads the fields back as if the first member sat in the low bits
+            # (extract w-1..0 = result, bit w = flag). Put the flag on top so that both reads are right.
+            if (len(binds) == 1 and isinstance(body, list) and len(body) == 3 and body[0] == 'concat'
+                    and isinstance(body[2], list) and len(body[2]) == 4 and body[2][0] == 'ite'
+                    and body[2][2] == '#b1' and body[2][3] == '#b0'
+                    and isinstance(body[1], list) and len(body[1]) == 2 and isinstance(body[1][0], list)
+                    and body[1][0][:2] == ['_', 'extract'] and body[1][0][3] == '0' and body[1][1] == binds[0][0]):
+                body = ['concat', body[2], body[1]]
+                self.stats['overflow_result_fixed'] = self.stats.get('overflow_result_fixed', 0) + 1
+            return ['let', binds, body]
         if h == '_':
             if t[1] in ('+oo', '-oo', 'NaN', '+zero', '-zero') and m != 'B':
                 eb, sb = int(t[2]), int(t[3])
